@@ -137,6 +137,9 @@ def first_hole_is_tag(expr: ast.AST) -> bool:
     e = strip_await(expr)
     while isinstance(e, ast.Call) and isinstance(e.func, ast.Attribute) and e.func.attr in ("strip", "encode", "rstrip"):
         e = e.func.value
+    if isinstance(e, ast.IfExp):
+        # `A if c else B`: a tagged line whichever arm is taken
+        return first_hole_is_tag(e.body) and first_hole_is_tag(e.orelse)
     parts = fstring_parts(e)
     if not parts:
         return False
